@@ -18,7 +18,9 @@ from client import Server, uri_for, diag_keys
 
 WORDS = ["tset", "wrold", "qzxvb", "mispeled", "gardden", "Tset", "TSET", "caféish", "o’clocker", "zxürich", "naïvetés", "Qzxvb", "x86ish", "日本語", "wrold’s",
          # structured words: every letter an even number of times, anagram pairs, one-letter difference
-         "tuktuk", "qzqz", "zazaza", "dlorw", "tets", "wrolds", "qq"]
+         "tuktuk", "qzqz", "zazaza", "dlorw", "tets", "wrolds", "qq",
+         # longer than any curated word (53 letters)
+         "llanfairpwllgwyngyllgogerychwyrndrobwllllantysiliogogogoch", "pneumonoultramicroscopicsilicovolcanoconiosisesque"]
 
 
 def big_seed_words(rng, n):
@@ -43,11 +45,11 @@ class Hist:
         shutil.rmtree(self.base, ignore_errors=True)
         os.makedirs(os.path.join(self.base, "files"))
         self.refbase = refbase
-        self.paths = {"A": os.path.join(self.base, "files", "a.txt"), "B": os.path.join(self.base, "files", "b.md")}
-        self.lang = {"A": "plaintext", "B": "markdown"}
+        self.paths = {"A": os.path.join(self.base, "files", "a.txt"), "B": os.path.join(self.base, "files", "b.md"), "C": os.path.join(self.base, "files", "c.rs")}
+        self.lang = {"A": "plaintext", "B": "markdown", "C": "rust"}
         self.text = {}
         self.user = []
-        self.filew = {"A": [], "B": []}
+        self.filew = {"A": [], "B": [], "C": []}
         self.trace = []
         self.findings = []
         self.checks = 0
@@ -116,7 +118,7 @@ class Hist:
         got = model.read_word_file(s.user_dict)
         self.checks += 1
         self._cmp_file("user", got, self.user, why)
-        for k in ("A", "B"):
+        for k in ("A", "B", "C"):
             p = os.path.join(s.file_dict_dir, model.file_dict_name(self.paths[k]))
             got = model.read_word_file(p)
             if self.filew[k] or got is not None:
@@ -168,8 +170,12 @@ class Hist:
                     self.filew[k].append(w)
                 self.refresh_all()
             elif r < 0.85:
-                k = rng.choice(["A", "B"])
+                k = rng.choice(["A", "B", "C"])
                 t = model.make_text(rng, WORDS)
+                if k == "C":
+                    # prose in comments, identifiers in code: the identifier set changes from edit to edit
+                    ids = ["ident_%d" % rng.randint(0, 5) for _ in range(rng.randint(1, 3))]
+                    t = "".join("// %s\n" % line for line in t.split("\n") if line) + "".join("fn %s() {}\n" % i for i in ids)
                 if self.big and len(self.user) > 10:
                     t += " " + " ".join(rng.sample(self.user[2:], 6)) + "."
                 self.trace.append({"op": "lint", "doc": k, "text": t})
